@@ -159,6 +159,12 @@ Proof. exact @src_rs_read_eq. Qed.
    second segment (3 bytes at pos 7, toggle 0x10) has byte 0 = 0x10 | (7-3)<<1 | 1 = 0x19 and completes the stream;
    close() of an unfinished stream of unknown size sends 0x0F | toggle; an expedited upload response 0x4B (e, s, n=2)
    gives size 2; a final 2-byte upload segment 0x1B with toggle 0x10. *)
+(* readinto(b) with a buffer of cap bytes: read(7) only when nothing is pending, min(cap, pending) bytes handed out,
+   the rest kept *)
+Theorem C03_src_rs_readinto : forall (S : Type) (peer : S -> list Z -> S * list (list Z)) rf cap (w : world) st,
+  0 <= cap -> rs_readinto peer rf cap w st = rs_readinto_from_src peer rf cap w st.
+Proof. exact @src_rs_readinto_eq. Qed.
+
 (* the exchange itself: which frame is awaited, when the queue is replaced, that ONE request is sent, and that a missing
    response is answered by the abort frame [0x80, 0, 0, 0, code little-endian] with the code in the source text (0x05040000)
    after MAX_RETRIES (regenerated: SDO_MAX_RETRIES) attempts *)
@@ -195,3 +201,4 @@ Print Assumptions C03_src_upload_truncation.
 Print Assumptions C03_src_request_response.
 Print Assumptions C03_src_read_response.
 Print Assumptions C03_src_abort_frame.
+Print Assumptions C03_src_rs_readinto.
